@@ -102,6 +102,13 @@ func (e *BaseParserError) FriendlyErrorMessage() string {
 		msg.WriteString(fmt.Sprintf("location: %s", friendlyLoc))
 	}
 	msg.WriteString("\n" + e.SourceCode() + "\n")
+	if colStart < 1 {
+		colStart = 1
+	}
+	// The error may end on a later line, in which case only the start is marked
+	if end.Line != start.Line || colEnd < colStart {
+		colEnd = colStart
+	}
 	pad := strings.Repeat(" ", colStart-1)
 	msg.WriteString(pad + strings.Repeat("^", colEnd-colStart+1))
 	return msg.String()
